@@ -238,7 +238,13 @@ def order_family(chk, tier):
     t2, i2 = DO.forced_order_traces(chk, 40 if quick else 400)
     chk.rules.append("%d inputs reaching the hash-ordered sites x %d PYTHONHASHSEED values through the real CLI in fresh processes; "
                      "%d inputs x 6 forced iteration orders of ModelMeta sets + repeated in-process runs" % (len(t1), len(seeds), len(t2)))
-    chk.validate("Trace_Order", t1 + t2, dict(i1, **i2), shard=20)
+    graphs = DL.mc_layout(chk, 3 if quick else 4, emit=True)
+    if not quick:
+        chk.rng.shuffle(graphs)
+        graphs = graphs[:3000]
+    t3, i3 = DO.layout_seed_traces(graphs, seeds)
+    chk.rules.append("%d TLC-enumerated model graphs (MC_Layout) laid out flat and nested in fresh processes under each seed" % len(graphs))
+    chk.validate("Trace_Order", t1 + t2 + t3, dict(dict(i1, **i2), **i3), shard=40)
 
 
 def replay_case(pid, path):
@@ -290,6 +296,24 @@ def replay_case(pid, path):
     return 0
 
 
+from . import drive_layout as DL
+
+
+def layout_family(chk, tier):
+    quick = tier == "quick"
+    beh = DL.mc_layout(chk, 3 if quick else 4, emit=True)
+    beh += DL.mc_layout(chk, 3, two_roots=True, emit=True)
+    chk.exhaustive_parts.append("MC_Layout: every rooted model graph on %d models (and on 3 models with a second root): layouts place "
+                                "each model once, root first, nested classes in their referrer" % (3 if quick else 4))
+    if not quick:
+        chk.rng.shuffle(beh)
+        beh = beh[:6000]
+    traces, inputs = DL.layout_traces(beh)
+    chk.rules.append("%d TLC-enumerated model graphs rebuilt from real ModelMeta / ModelPtr objects and laid out by the real "
+                     "compose_models / compose_models_flat" % len(beh))
+    chk.validate("Trace_Layout", traces, inputs, shard=60)
+
+
 def run(pid, tier, replay=None):
     if replay:
         return replay_case(pid, replay)
@@ -309,6 +333,8 @@ def run(pid, tier, replay=None):
             chk.validate("Trace_Infer", traces, inputs, shard=25)
         return chk.finish()
     if pid in ("C03", "C04", "C10", "C11", "C12", "C18"):
+        if pid == "C12":
+            layout_family(chk, tier)
         module_family(pid, tier, chk)
         return chk.finish()
     if pid in ("C16", "C17"):
